@@ -82,7 +82,14 @@ def make_problem(rng, N=None, profile=None, n_offsets=None, poly_trend=None, kki
     units = {"s": pb.du}
     if pb.lib_units:
         units.update(pb.lib_units)
-    pb.lib = gen.build_samples(rows, units=units, ln_prior=True)
+    # prior-sample libraries may carry a reference epoch of their own (prior.sample(..., t_ref=...) passes it through);
+    # it must never replace the data's reference epoch on the samples that come back
+    lib_t_ref = None
+    if rng.random() < 0.3:
+        from astropy.time import Time
+        lib_t_ref = Time(float(np.round(rng.uniform(50000, 60000), 2)), format="mjd", scale="tcb")
+    pb.lib_t_ref = lib_t_ref
+    pb.lib = gen.build_samples(rows, units=units, ln_prior=True, t_ref=lib_t_ref)
     pb.s_seen = pb.lib["s"].to_value(gen.U(pb.du))
     pb.lin = gen.linear_problem(dspec, ps)
     pb.tagP = np.asarray(pb.lib["P"].to_value("d"))
